@@ -346,7 +346,7 @@ fn execute(sc: &Scenario, out: &mut Outcome) {
                 // R: methods registered on the route matching the path (union over pieces of registration)
                 let route_g = appgen::greedy(&table.routes, &segs);
                 let route_b = appgen::backtrack(&table.routes, &segs);
-                if route_g.map(|r| &r.segs) != route_b.map(|r| &r.segs) {
+                if route_g.map(|r| &r.segs) != route_b.map(|r| &r.segs) || c01::mount_points_change_routing(&table, &segs) {
                     continue; // routing-ambiguous
                 }
                 let registered: BTreeSet<String> = match route_g {
